@@ -397,6 +397,24 @@ fn random_tuple<const D: usize>(rng: &mut Rng) -> (Vec<[f64; D]>, [f64; D], &'st
             pts[D + 1][j] += [0.5, -0.5, 0.125, -0.125, 1.0 / 1024.0][rng.usize(5)];
         }
     }
+    // Anisotropic dyadic rescaling (one case in five): every axis is multiplied by its own power of two, which
+    // multiplies all determinants by an exact power of two and leaves their signs alone, but spreads the LU pivots
+    // over many orders of magnitude (a pivot near 1e-12 next to pivots near 1e3). Whether a tuple is judged is still
+    // decided by the exact value against the documented band.
+    let mut name = name;
+    if rng.chance(1, 5) {
+        let ks: Vec<i32> = (0..D).map(|_| rng.range_i64(-45, 12) as i32).collect();
+        for p in pts.iter_mut() {
+            for j in 0..D {
+                p[j] *= 2f64.powi(ks[j]);
+            }
+        }
+        name = match name {
+            "intgrid" => "intgrid+anisotropic",
+            "near_sphere" => "near_sphere+anisotropic",
+            _ => "other+anisotropic",
+        };
+    }
     let t = pts.pop().unwrap();
     (pts, t, name)
 }
